@@ -75,6 +75,18 @@ pub fn scenario(ctx: &mut Ctx) -> ScResult {
             _ => ctx.ch.range(1, 3),
         };
         let next = msgs.get(i + 1).cloned();
+        // duplication: one copy arrives intact, the other damaged (a retransmission that got
+        // corrupted) — a receiver that remembers anything about the intact copy (a verdict cache, a
+        // memoised key or CRC) must still judge the damaged one on its own bytes
+        if nf > 0 && ctx.ch.rare(1, 3) {
+            ctx.st.inc("fault.duplicate_intact_then_damaged");
+            ev!(ctx, "  deliver intact copy first ({}B)", buf.len());
+            let r = if tracing_on { with_subscriber(|| receive(ctx, &buf, &opts)) } else { receive(ctx, &buf, &opts) };
+            if let Err(v) = r {
+                ev!(ctx, "  !! {} [{}]: {}", v.clause, v.site, v.message);
+                return Err(v);
+            }
+        }
         for _ in 0..nf {
             let label = faults::apply(ctx.ch, &mut buf, next.as_deref(), &w, &mut ctx.st);
             if !label.is_empty() {
